@@ -159,8 +159,9 @@ def search_wire(run):
 
 
 PROPS['C16'] = {
-    'modules': ['IpcModel.Props.C16'],
-    'theorems': ['C16.C16_total', 'C16.C16_sound', 'C16.C16_roundtrip', 'Wire.dec_ne_panic_all', 'Wire.dec_sound_all', 'Wire.dec_enc'],
+    'modules': ['IpcModel.Props.C16', 'IpcModel.Props.C16Script'],
+    'theorems': ['C16.C16_total', 'C16.C16_sound', 'C16.C16_roundtrip', 'Wire.dec_ne_panic_all', 'Wire.dec_sound_all', 'Wire.dec_enc',
+                 'C16.C16_to_script', 'C16.C16_takeAll_get', 'C16.C16_shape'],
     'scenarios': (lambda a: (lambda tier, seed: a(tier, seed) + [{'args': ['crash', '--shape', str(i), '--tier', tier]} for i in ((1, 2, 5) if tier == 'thorough' else (1,))]))(wire_scen('dec', 2400, 40000)),
     'search': search_wire,
     'rule': ('12 expected types x 4 styles (random bytes; valid encoding; mutated valid encoding; mutated encoding with random attachment lists) '
@@ -202,7 +203,8 @@ def search_side(run):
 
 PROPS['C14'] = {
     'modules': ['IpcModel.Props.C14'],
-    'theorems': ['C14.C14_tables', 'C14.C14_own', 'C14.C14_self_contained', 'C14.C14_fail', 'Side.ser_spec', 'Side.ipcSend_restores'],
+    'theorems': ['C14.C14_tables', 'C14.C14_own', 'C14.C14_self_contained', 'C14.C14_fail', 'Side.ser_spec', 'Side.ipcSend_restores',
+                 'C14.C14_send_script', 'C14.C14_script_agrees', 'C14.C14_nested_receive'],
     'scenarios': wire_scen('side', 1600, 40000),
     'search': search_side,
     'rule': ('seeded serialisation programs: 1-2 top-level sends of 1..5 nodes {data, sender, receiver, region, empty region, fail, nested send '
@@ -215,7 +217,9 @@ PROPS['C14'] = {
     'level_text': ('Kernel-checked: IpcSender::send model restores the thread-local tables on success, serialisation failure, OS failure and at every nesting depth; '
                    'each message carries exactly its own attachments with correct indices; tied to the real send by tapping every OS-level message of random '
                    'nested/failing serialisation programs'),
-    'level_note': 'Trusted: Lean kernel, harness; the model of send() is hand-written and tied by correspondence (tokens, attachments, results); Drop-based release observed only',
+    'level_note': ('Trusted: Lean kernel, translator (regex extraction of the order of table operations in IpcSender::send / OpaqueIpcMessage::to, rejecting any other table access, '
+                   'early exit or branch in their bodies), harness; the recursive model of send() is hand-written, proved to agree level by level with the regenerated script '
+                   '(C14_script_agrees) and tied by correspondence (tokens, attachments, results); Drop-based release observed only'),
 }
 
 
@@ -268,7 +272,7 @@ PROPS['C17'] = dict(ROUTER_COMMON, **{
     'modules': ['IpcModel.Props.C17'],
     'theorems': ['C17.C17_stopped_shutdown', 'C17.C17_stopped_proxy_drop', 'C17.C17_no_panic', 'C17.C17_late', 'C17.C17_idempotent',
                  'C17.C17_shutdown_sequential', 'Router.run_stopped', 'C17.C17_sys_inv', 'C17.C17_returns_stopped', 'C17.C17_stopped_forever',
-                 'C17.C17_no_deadlock', 'C17.C17_wake_channel_bounded', 'RSys.inv_step', 'RSys.no_stuck', 'RSys.winv_step'],
+                 'C17.C17_no_deadlock', 'C17.C17_wake_channel_bounded', 'RSys.inv_step', 'RSys.no_stuck', 'RSys.winv_step', 'C17.C17_shape'],
     'scenarios': router_scen(600, 8000, 240, 4000),
     'rule': ('seq: seeded client scripts of 3..14 operations {add_route, send, drop sender, shutdown, drop proxy} on a fresh RouterProxy with recording callbacks and '
              'drop guards, quiescence after every step, per-route logs compared with the model; race: 0..8 routes (one callback may re-enter add_route on the router '
@@ -290,7 +294,7 @@ PROPS['C17'] = dict(ROUTER_COMMON, **{
 PROPS['C07'] = dict(ROUTER_COMMON, **{
     'modules': ['IpcModel.Props.C07'],
     'theorems': ['C07.C07_dispatch', 'C07.C07_dispatch_partial_msg', 'C07.C07_dispatch_partial_closed', 'C07.C07_keys', 'C07.C07_fresh', 'Router.step_fresh',
-                 'Router.dispatch_run', 'Router.run_gone'],
+                 'Router.dispatch_run', 'Router.run_gone', 'C07.C07_shape'],
     'scenarios': router_scen(800, 8000, 160, 3000),
     'rule': PROPS['C17']['rule'],
     'explanation': ('one-step dispatch theorems (message -> exactly the registered handler, once; closure -> exactly that handler dropped; fresh ids) plus the freshness '
